@@ -86,6 +86,19 @@ theorem split_order_independent (ks ks' : List (List String)) (σ τ : Nat → N
       exact this.symm⟩) (hσ a ha).1 h
     rwa [(hσ a ha).2.2, (hσ b hb).2.2] at this
 
+/-- "one per connected component", as a count: the groups are non-empty, no reaction index lies in two of them, and taking the
+first reaction of every group gives a complete system of representatives of the connectivity classes of the reaction graph (every
+reaction is connected to exactly one of them, no two of them are connected): #groups = #components. -/
+theorem split_count (ks : List (List String)) :
+    (∀ g ∈ splitGroups ks, g.1 ≠ []) ∧
+    (splitGroups ks).Pairwise (fun g h => ∀ x ∈ g.1, x ∉ h.1) ∧
+    ∃ reps : List Nat, reps.length = (splitGroups ks).length ∧ (∀ r ∈ reps, r < ks.length) ∧
+      (∀ a, a < ks.length → ∃ r ∈ reps, Reach ks (List.range ks.length) r a) ∧
+      reps.Pairwise (fun r r' => ¬ Reach ks (List.range ks.length) r r') := by
+  obtain ⟨hok, hperm, _⟩ := splitGroups_inv ks
+  exact ⟨fun g hg => (hok g hg).nonempty,
+    idx_pairwise _ (hperm.nodup_iff.mpr List.nodup_range), splitGroups_reps ks⟩
+
 /-- the groups are non-empty and distinct as sets of reactions, so their number is the number of connected
 components: no reaction index lies in two groups -/
 theorem split_groups_unique (ks : List (List String)) (g h : Group) (hg : g ∈ splitGroups ks) (hh : h ∈ splitGroups ks)
@@ -183,6 +196,13 @@ theorem categorize_ok_iff (s : RSys) :
   refine ⟨?_, fun substs => ?_⟩
   · rw [categorize_nochecks_iff, (expand_spec s.rxns).1]
   · simp [categorize, expand, make_odict_nochecks, categoryOf, RSys.keys]
+
+/-- … and with requested checks: `categorize_substances(checks=cs)` answers exactly when the equilibria can be expanded and the
+expanded (irreversible) system passes every requested check -/
+theorem categorize_checks_ok_iff' (s : RSys) (checks : List Check) :
+    (∃ c, categorize s checks = .ok c) ↔
+      ∃ ex, expand s.rxns = .ok ex ∧ ∀ ch ∈ checks, runCheck ⟨ex, s.substs⟩ ch = true :=
+  categorize_checks_ok_iff s checks
 
 /-- the four categories are pairwise disjoint, and a substance is in none of them exactly when it is net-consumed by
 one (expanded) reaction and net-produced by another -/
@@ -331,17 +351,15 @@ theorem add_spec (a b : RSys) (ha : a.keys.Nodup) (hb : b.keys.Nodup) :
   · exact fun k => lookup_odictUpdate a.substs b.substs hb k
   · exact odictUpdate_nodup a.substs b.substs ha
 
-/-- `ReactionSystem.concatenate([first, …rest])` (repaired code: `rsys = rsys + yes`): both results — reactions AND
-substances — are the fold of `concatSpecStep` (Proofs/RSysGraph.lean: append the reactions of the next system that are no
-stoichiometric duplicate of anything accumulated so far, and update the OrderedDict with the substances occurring in
-them; the duplicates and their substances go to the second result). The substances of the sum start with those of
+/-- `ReactionSystem.concatenate([first, …rest])` (repaired code: `rsys = rsys + yes`): nothing is lost or invented (sum and
+duplicates together are a permutation of all reactions), the first system's reactions come first, every skipped reaction has a
+stoichiometric twin in the sum. (The step-by-step description — reactions AND substances as the fold of `concatSpecStep` — is
+`foldl_concatStep_eq` / `foldl_concatRxns_of_steps` in Proofs.) The substances of the sum start with those of
 `first` in order and stay unique. A one-element list returns that element itself and an empty duplicates system; an empty
 list raises. (That no argument is modified is a statement about Python object identity: it is checked by the history
 oracle, not expressible for this pure model; see `runOp_prefix` in Proofs.) -/
 theorem concatenate_spec (first : RSys) (rest : List RSys) (hn : first.keys.Nodup) :
     ∃ sum dups, concatenate (first :: rest) = some (sum, dups) ∧
-      (sum, dups) = rest.foldl concatSpecStep (first, ⟨[], []⟩) ∧
-      (sum.rxns, dups.rxns) = rest.foldl concatRxns (first.rxns, []) ∧
       -- what a user needs: nothing is lost or invented, the first system comes first, every skipped reaction has a
       -- stoichiometric twin in the sum
       (sum.rxns ++ dups.rxns).Perm ((first :: rest).flatMap (·.rxns)) ∧
@@ -353,7 +371,7 @@ theorem concatenate_spec (first : RSys) (rest : List RSys) (hn : first.keys.Nodu
   have hr := foldl_concatRxns_of_steps rest (first, ⟨[], []⟩)
   obtain ⟨p1, p2, p3⟩ := foldl_concatRxns_spec rest (first.rxns, [])
   rw [← hr] at p1 p2 p3
-  refine ⟨_, _, rfl, h1, hr, ?_, p1, ?_, h2, h3, ?_, rfl⟩
+  refine ⟨_, _, rfl, ?_, p1, ?_, h2, h3, ?_, rfl⟩
   · simpa using p2
   · intro d hd
     rcases p3 d hd with h | h
@@ -374,18 +392,6 @@ theorem substance_index_spec (s : RSys) (k : String) :
   cases h : asSubstanceIndex s k with
   | none => exact absurd hk ((asSubstanceIndex_none s k).mp h)
   | some i => exact ⟨i, rfl⟩
-
-/-- `rs1 == rs2`: same substances (same keys in the same order with equal Substance objects) and pairwise equal
-reactions, where reactions are compared on the four ordered stoichiometry dicts and the parameter — NOT on the name and not
-on the class (`Equilibrium` vs `Reaction`) -/
-theorem eq_spec (a b : RSys) :
-    (a.pyEq b = true ↔ a.substs = b.substs ∧
-      List.Forall₂ (fun x y : Rxn => x.reac = y.reac ∧ x.prod = y.prod ∧ x.param = y.param ∧ x.paramB = y.paramB ∧
-        x.inactReac = y.inactReac ∧ x.inactProd = y.inactProd) a.rxns b.rxns) ∧
-    a.pyEq a = true := by
-  refine ⟨?_, by simp [RSys.pyEq, listPyEq_refl]⟩
-  simp only [RSys.pyEq, Bool.and_eq_true, beq_iff_eq, listPyEq_iff, Rxn.pyEq_iff]
-  exact and_comm
 
 /-! ## per-substance arrays and dictionaries -/
 
@@ -423,6 +429,28 @@ theorem dict_array_roundtrip {α : Type} (s : RSys) (d : List (String × α)) (r
       simp only [asPerSubstanceDict]
       rw [List.map_fst_zip]
       omega
+
+/-- `per_substance_varied(base, varied)`: it answers exactly when `base` has one entry per substance and every varied key is a
+substance. Then the varied keys are reported in SUBSTANCE order; there is one row per combination of levels (the product of the
+numbers of levels); every row has one entry per substance, which is the base value for a substance that is not varied and one of
+the levels of that substance for a varied one. (Row order: C order with the first varied substance slowest — that is the
+definition of `variedRows`, compared exactly with numpy by the correspondence.) -/
+theorem varied_spec {α : Type} (s : RSys) (base : List α) (varied : List (String × List α)) (hk : s.keys.Nodup) :
+    ((∃ r, perSubstanceVaried s base varied = .ok r) ↔ base.length = s.ns ∧ ∀ kv ∈ varied, kv.1 ∈ s.keys) ∧
+    ∀ rows vkeys, perSubstanceVaried s base varied = .ok (rows, vkeys) →
+      vkeys = s.keys.filter (fun k => varied.any fun kv => kv.1 == k) ∧
+      rows.length = (vkeys.map fun k => match varied.lookup k with | some vals => vals.length | none => 1).prod ∧
+      ∀ row ∈ rows, row.length = s.ns ∧
+        ∀ (j : Nat) (k : String) (x : α), s.keys[j]? = some k → row[j]? = some x →
+          ((∀ kv ∈ varied, kv.1 ≠ k) → base[j]? = some x) ∧
+          (∀ vals, varied.lookup k = some vals → x ∈ vals) :=
+  ⟨perSubstanceVaried_ok_iff s base varied, fun rows vkeys h => perSubstanceVaried_spec s base varied rows vkeys hk h⟩
+
+/-- the docstring example of `per_substance_varied`: C varied over 4 levels, A and B fixed -/
+example :
+    perSubstanceVaried ⟨[], ["A", "B", "C"].map fun k => (k, { name := k })⟩ [2, 3, 5] [("C", [5, 7, 9, 11])] =
+      .ok ([[2, 3, 5], [2, 3, 7], [2, 3, 9], [2, 3, 11]], ["C"]) := by
+  decide
 
 /-! ## upper_conc_bounds -/
 
@@ -510,6 +538,36 @@ theorem upper_bound_valid (s : RSys) (init c : List Rat) (bs : List (Option Rat)
   rw [hbeq, le_div_iff₀ hvpos]
   simpa [elemTotal, mul_comm] using hle
 
+/-- one reaction step `c ↦ c + ξ·ν_r` (any extent ξ, forward or backward) changes the total of element `k` by `ξ` times the
+element balance of the reaction, `Σ_i ν_i · atoms_i(k)`; so a reaction that conserves element `k` leaves its total unchanged. -/
+theorem balanced_step_preserves_totals (s : RSys) (c : List Rat) (r : Rxn) (ξ : Rat) (k : Nat)
+    (hc : c.length = s.ns) (hcomp : (compsOf s).length = s.ns) :
+    elemTotal s (stepState c ξ (netVec s r)) k = elemTotal s c k + ξ * elemTotal s (netVec s r) k ∧
+    (elemTotal s (netVec s r) k = 0 → elemTotal s (stepState c ξ (netVec s r)) k = elemTotal s c k) ∧
+    (stepState c ξ (netVec s r)).length = s.ns := by
+  have h := elemTotal_step s c r ξ k hc hcomp
+  refine ⟨h, fun h0 => by rw [h, h0]; ring, ?_⟩
+  rw [stepState_length _ _ _ (by rw [netVec_length]; omega)]; exact hc
+
+/-- "bounds hold for every reachable state": in a system whose reactions all conserve every element (`Balanced`; it suffices
+to check the elements that occur, `balanced_of_elements`), every state reached from `init` by finitely many reaction steps — of any
+extent and direction, through whatever intermediate states — has the element totals of `init`; hence, if it is non-negative, it is
+componentwise below the bounds computed from `init`. -/
+theorem reachable_states_within_bounds (s : RSys) (init c : List Rat) (bs : List (Option Rat))
+    (h : upperConcBounds s init [0] = .ok bs) (hbal : Balanced s)
+    (hcomp : ∀ comp ∈ compsOf s, ∀ kv ∈ comp, kv.1 ≠ 0 → 0 ≤ kv.2)
+    (hreach : Reachable s init c) :
+    (∀ k, k ≠ 0 → elemTotal s c k = elemTotal s init k) ∧
+    ((∀ x ∈ c, 0 ≤ x) → ∀ (i : Nat) (x b : Rat), c[i]? = some x → bs[i]? = some (some b) → x ≤ b) := by
+  obtain ⟨hi, hcl, _⟩ := upperConcBounds_ok h
+  obtain ⟨hl, ht⟩ := reachable_totals s init c hbal hi hcl hreach
+  exact ⟨ht, fun hnn => upper_bound_valid s init c bs h hcomp hl hnn ht⟩
+
+/-- a system's reactions are balanced as soon as they are for the finitely many elements that occur in its compositions -/
+theorem balanced_iff_on_elements (s : RSys) :
+    Balanced s ↔ ∀ r ∈ s.rxns, ∀ k ∈ elementsOf s, k ≠ 0 → elemTotal s (netVec s r) k = 0 :=
+  ⟨fun h r hr k _ hk => h r hr k hk, balanced_of_elements s⟩
+
 /-- DEVIATION (mirrors the code): `skip_keys` is honoured by the accumulation loop only; the second loop hard-codes
 `comp_nr == 0`. Skipping hydrogen makes the bound of every hydrogen-containing species 0 — below its own initial
 concentration (`rs.upper_conc_bounds({'H2': 1}, skip_keys=(0, 1)) == [0.0]`). -/
@@ -577,56 +635,41 @@ theorem make_deduced (rxns : List Rxn) (checks : List Check) (s : RSys)
     by_contra hlt
     exact hne (String.le_antisymm hab (String.not_lt.mp hlt))
 
-/-- the constructor in full (`makeFull`): with explicit `checks`, no `dont_check` and without `missing_substances_from_keys` it
-is `make` (so `make_spec` applies); giving both `checks` and `dont_check` is refused; `missing_substances_from_keys=True` needs at
-least one reaction (`set.union(*[])` raises TypeError) and then the substances are exactly the given ones plus every key of a
-reaction — in particular every reaction key is a substance, whatever checks were requested —, sorted when sorting applies and
-otherwise the given substances first, in their order. -/
-theorem make_full_spec (rxns : List Rxn) (arg : SubstArg) (sort : Option Bool) :
-    (∀ cs, RSys.makeFull rxns arg (some cs) none sort false =
-      match RSys.make rxns arg cs sort with
-      | .ok s => .ok s
-      | .error c => .error (.check c)) ∧
-    (∀ cs dc, rxns ≠ [] → RSys.makeFull rxns arg (some cs) (some dc) sort true = .error .bothGiven) ∧
-    (∀ cs dc, RSys.makeFull rxns arg (some cs) (some dc) sort false = .error .bothGiven) ∧
-    (∀ checks dont, RSys.makeFull [] arg checks dont sort true = .error .typeError) ∧
+/-- the constructor with `missing_substances_from_keys=True` and explicit checks: it succeeds exactly when there is at least one
+reaction (`set.union(*[])` raises TypeError otherwise) and the requested checks hold for the system with the missing keys added;
+then the substances are exactly the given ones plus every key of a reaction — in particular every reaction key is a substance —,
+sorted when sorting applies and otherwise the given substances first, in their order. (The definitional cases of `makeFull` — it is
+`make` without the extra arguments, both `checks` and `dont_check` is refused — are `makeFull_explicit` / `makeFull_refusals` in
+Proofs.) -/
+theorem make_missing_spec (rxns : List Rxn) (arg : SubstArg) (sort : Option Bool) :
+    (∀ cs, (∃ s, RSys.makeFull rxns arg (some cs) none sort true = .ok s) ↔
+      rxns ≠ [] ∧ ∀ c ∈ cs, runCheck ⟨rxns, addMissing (substancesOf rxns arg).1 rxns⟩ c = true) ∧
     (∀ checks dont s, RSys.makeFull rxns arg checks dont sort true = .ok s →
       s.rxns = rxns ∧
       (∀ k, k ∈ s.keys ↔ k ∈ (substancesOf rxns arg).1.map (·.1) ∨ ∃ r ∈ rxns, k ∈ r.keys) ∧
       (sortApplies rxns arg sort = true → s.substs.Pairwise (fun a b => a.1 ≤ b.1)) ∧
       (sortApplies rxns arg sort = false → (substancesOf rxns arg).1.map (·.1) <+: s.keys)) := by
-  refine ⟨fun cs => makeFull_explicit rxns arg cs sort, ?_, ?_, ?_, ?_⟩
-  · intro cs dc hne
-    have : rxns.isEmpty = false := by simpa using hne
-    simp [RSys.makeFull, this]
-  · intro cs dc; simp [RSys.makeFull]
-  · intro checks dont; simp [RSys.makeFull]
-  · intro checks dont s h
-    obtain ⟨_, h1, h2, h3, h4⟩ := makeFull_missing_ok h
-    refine ⟨h1, ?_, h3, ?_⟩
-    · intro k
-      have : k ∈ s.keys ↔ k ∈ okeys (addMissing (substancesOf rxns arg).1 rxns) := by
-        simp only [RSys.keys, okeys]; exact (h2.map _).mem_iff
-      rw [this, mem_okeys_addMissing]; rfl
-    · intro hd
-      rw [RSys.keys, h4 hd]
-      exact okeys_prefix_odictUpdate _ _
+  refine ⟨fun cs => makeFull_missing_ok_iff rxns arg cs sort, ?_⟩
+  intro checks dont s h
+  obtain ⟨_, h1, h2, h3, h4⟩ := makeFull_missing_ok h
+  refine ⟨h1, ?_, h3, ?_⟩
+  · intro k
+    have : k ∈ s.keys ↔ k ∈ okeys (addMissing (substancesOf rxns arg).1 rxns) := by
+      simp only [RSys.keys, okeys]; exact (h2.map _).mem_iff
+    rw [this, mem_okeys_addMissing]; rfl
+  · intro hd
+    rw [RSys.keys, h4 hd]
+    exact okeys_prefix_odictUpdate _ _
 
 /-- `categorize_substances` on reactions with NEGATIVE coefficients (possible with `checks=()`; plain reactions, no checks
 requested): it is refused ("Expected positive stoichiometric coefficients") as soon as the total reactant or the total product
-coefficient of some substance of the system is negative; without any negative coefficient it is `categorize`. -/
-theorem categorize_negative_refused (rxns : List SRxn) (substs : ODict) :
-    (∀ l, rxns.mapM SRxn.toRxn? = some l → ∀ checks,
-      categorizeSigned rxns substs checks = match categorize ⟨l, substs⟩ checks with
-        | .ok c => .ok c
-        | .error e => .error (.cat e)) ∧
-    ((∀ r ∈ rxns, r.isEq = false) →
-      (∃ r ∈ rxns, ∃ kv ∈ substs, r.reac.get kv.1 + r.inactReac.get kv.1 < 0 ∨ r.prod.get kv.1 + r.inactProd.get kv.1 < 0) →
-      categorizeSigned rxns substs [] = .error .negative) := by
-  constructor
-  · intro l hl checks
-    simp only [categorizeSigned, hl]
-    cases categorize ⟨l, substs⟩ checks <;> rfl
+coefficient of some substance of the system is negative. (Without any negative coefficient `categorizeSigned` is `categorize`:
+`categorizeSigned_nonneg` in Proofs.) -/
+theorem categorize_negative_refused (rxns : List SRxn) (substs : ODict)
+    (hplain : ∀ r ∈ rxns, r.isEq = false)
+    (hneg : ∃ r ∈ rxns, ∃ kv ∈ substs, r.reac.get kv.1 + r.inactReac.get kv.1 < 0 ∨ r.prod.get kv.1 + r.inactProd.get kv.1 < 0) :
+    categorizeSigned rxns substs [] = .error .negative := by
+  revert hplain hneg
   · intro hplain ⟨r, hr, kv, hkv, hneg⟩
     have hnone : rxns.mapM SRxn.toRxn? = none := by
       cases hm : rxns.mapM SRxn.toRxn? with
@@ -655,12 +698,23 @@ theorem categorize_negative_refused (rxns : List SRxn) (substs : ODict) :
     simp only [categorizeSigned, hnone, hq, List.isEmpty_nil, Bool.not_true, Bool.or_self, Bool.false_eq_true, ↓reduceIte]
     rw [if_pos this]
 
+/-- DEVIATION (mirrors the code): a `substances` string without a blank is iterated character-wise (`'H2O'` → `H`, `2`, `O`);
+with a blank it is split at blanks -/
+theorem bare_string_substances_witness :
+    (substancesOf [] (.str "H2O")).1.map (·.1) = ["H", "2", "O"] ∧
+    (substancesOf [] (.str "H2O ")).1.map (·.1) = ["H2O"] := by
+  decide
+
 /-! ## the hypotheses are satisfiable: concrete instances -/
 
 /-- four reactions A→B, C→D, B→C (bridging the first two groups), E→E (catalyst only): the greedy pass makes three
 groups, the fusion loop joins the first two through reaction 2 -/
 example : splitGroups [["A", "B"], ["C", "D"], ["B", "C"], ["E", "E"]] =
     [([0, 2, 1], ["A", "B", "B", "C", "C", "D"]), ([3], ["E", "E"])] := by
+  decide +kernel
+
+/-- the same four reactions: two groups, two components -/
+example : (splitGroups [["A", "B"], ["C", "D"], ["B", "C"], ["E", "E"]]).length = 2 := by
   decide +kernel
 
 /-- 2 H2 + O2 → 2 H2O with a spectator and a catalyst -/
@@ -700,6 +754,18 @@ example :
     categorizeSigned [SRxn.mk [("A", 1)] [("B", 1), ("C", -2)] [] [] none none none false] [("C", { name := "C" })] [] =
       .error .negative := by
   decide
+
+/-- 2 H2 + O2 → 2 H2O is balanced, and (0, 0, 2) is reachable from (2, 1, 0) by one step of extent 1 -/
+example :
+    let r : Rxn := { reac := [("H2", 2), ("O2", 1)], prod := [("H2O", 2)] }
+    let s : RSys := ⟨[r], [("H2", { name := "H2", comp := some [(1, 2)] }), ("O2", { name := "O2", comp := some [(8, 2)] }),
+      ("H2O", { name := "H2O", comp := some [(1, 2), (8, 1)] })]⟩
+    Balanced s ∧ Reachable s [2, 1, 0] [0, 0, 2] := by
+  intro r s
+  refine ⟨(balanced_iff_on_elements s).mpr (by decide +kernel), ?_⟩
+  have e : stepState [2, 1, 0] 1 (netVec s r) = [0, 0, 2] := by decide +kernel
+  rw [← e]
+  exact .step r 1 .start (by simp [s])
 
 /-- bounds for 2 H2 + O2 ⇌ 2 H2O from (2, 1, 0): H2 ≤ min(4/2) , O2 ≤ 2/2, H2O ≤ min(4/2, 2/1); the state (0, 0, 2)
 has the same element totals and meets the bound of H2O -/
